@@ -131,6 +131,9 @@ def perturb_params(params, fold=1, lower_bound=None, upper_bound=None):
                                    for bound in upper_bound], dtype=float)
         margin = numpy.where(numpy.isfinite(upper_bound), 0.01*numpy.abs(upper_bound), 0)
         pnew = numpy.minimum(pnew, upper_bound - margin)
+    if lower_bound is not None:
+        # A box narrower than the two margins: stay inside it
+        pnew = numpy.maximum(pnew, lower_bound)
     return pnew
 
 def make_fux_table(fid, ts, Q, tri_freq):
